@@ -864,7 +864,7 @@ def run(ctx):
     t0 = time.time()
     if ctx.tier == "quick":
         system = System(EDITS_QUICK, SEEDS_QUICK)
-        depth, dev, budget = 4, 2, 240
+        depth, dev, budget = 4, 2, 600
     else:
         system = System(EDITS_THOROUGH, SEEDS_THOROUGH)
         depth, dev, budget = 5, 3, int(os.environ.get("VERIF_C12_BUDGET", "600"))
